@@ -86,7 +86,7 @@ def run_executor(d, kw, args):
     import asyncio
 
     def thunk():
-        ex = d.executor(**kw)
+        ex = d.executor(**S.spell_selections(kw))
         if isinstance(d, AsyncDAG):
             async def main():
                 return await ex(*args)
